@@ -2663,6 +2663,17 @@ M('C16', 'lt-by-type', PGP, "    def __lt__(self, other):\n        return self.c
 T('C16', 'twin-insort-insert', TY, "        i = bisect.bisect_left(self, item)\n        self.rotate(- i)\n        self.appendleft(item)\n        self.rotate(i)", "        position = bisect.bisect_left(self, item)\n        self.insert(position, item)")
 M('C16', 'insort-appends', TY, "        i = bisect.bisect_left(self, item)\n        self.rotate(- i)\n        self.appendleft(item)\n        self.rotate(i)", "        self.append(item)", 'C16.5')
 M('C16', 'insort-rotate-back-missing', TY, "        self.appendleft(item)\n        self.rotate(i)", "        self.appendleft(item)", 'C16.5')
+# --- insort evaluated on concrete collections: fast paths that are identities stay silent, wrong ones are reported
+_C16_INS = "        i = bisect.bisect_left(self, item)\n        self.rotate(- i)\n        self.appendleft(item)\n        self.rotate(i)"
+_C16_FAST = "        i = bisect.bisect_left(self, item)\n        if self.maxlen is None:\n            if i == 0:\n                self.appendleft(item)\n                return\n\n            if i == len(self):\n                self.append(item)\n                return\n\n        self.rotate(- i)\n        self.appendleft(item)\n        self.rotate(i)"
+T('C16', 'twin-insort-fast-paths-unbounded', TY, _C16_INS, _C16_FAST)
+T('C16', 'twin-insort-append-when-newest', TY, _C16_INS, "        if not self or self[-1] < item:\n            # strictly newer than everything held: it goes last\n            self.append(item)\n            return\n" + _C16_INS)
+M('C16', 'insort-fast-append-on-tie', TY, _C16_INS, "        if self.maxlen is None and self and not item < self[-1]:\n            # already in order: the new item goes last\n            self.append(item)\n            return\n" + _C16_INS, 'C16.5')
+T('C16', 'twin-insort-fast-paths-any-deque', TY, _C16_INS, _C16_FAST.replace("        if self.maxlen is None:\n", "        if True:\n"))
+M('C16', 'insort-bisect-right', TY, _C16_INS, _C16_INS.replace('bisect_left', 'bisect_right'), 'C16.5')
+M('C16', 'insort-fast-appendleft-off-by-one', TY, _C16_INS, _C16_FAST.replace("if i == 0:", "if i <= 1:"), 'C16.5')
+M('C16', 'insort-rotation-sign', TY, _C16_INS, "        i = bisect.bisect_left(self, item)\n        self.rotate(i)\n        self.appendleft(item)\n        self.rotate(- i)", 'C16.5')
+M('C16', 'insort-fast-append-skips-last-check', TY, _C16_INS, _C16_FAST.replace("if i == len(self):", "if i >= len(self) - 1:"), 'C16.5')
 # predicates
 T('C16', 'twin-s2k-bool-tuple', FL, "        return self.usage in [254, 255]", "        return self.usage in self._PROTECTED", more=[(FL, "    def __bool__(self):\n        return", "    _PROTECTED = (254, 255)\n\n    def __bool__(self):\n        return")])
 T('C16', 'twin-s2k-bool-ge', FL, "        return self.usage in [254, 255]", "        return self.usage >= 254")
@@ -4854,3 +4865,24 @@ M('C14', 'key-init-state-attribute-not-copied', PGP, KEYINIT,
 M('C14', 'uid-init-rank-attribute-not-copied', PGP, "        super(PGPUID, self).__init__()\n        self._uid = None\n        self._signatures = SorteDeque()\n",
   "        super(PGPUID, self).__init__()\n        self._uid = None\n        self._signatures = SorteDeque()\n        self._pinned = False\n", 'C14.4',
   more=[(PGP, "    def __lt__(self, other):  # pragma: no cover\n        if self.is_uid == other.is_uid:", "    def pin(self, value=True):\n        self._pinned = bool(value)\n\n    def __lt__(self, other):  # pragma: no cover\n        if self._pinned != other._pinned:\n            return self._pinned\n        if self.is_uid == other.is_uid:")])
+
+# ---- additive diagnostics around the Boolean decoder (C05-ref13)
+T('C14', 'twin-boolean-logged-odd-octet', SS, BFLAG, "    def bflag_bytearray(self, val):\n        octet = self.bytes_to_int(val)\n        if octet > 1:\n            self._log.debug('%s: boolean octet 0x%02x is neither 0 nor 1; treating it as true', self.__class__.__name__, octet)\n        self.bflag = bool(octet)",
+  more=[(SS, "class Boolean(Signature):\n", "class Boolean(Signature):\n    _log = logging.getLogger('pgpy.packet.subpackets')\n\n"), (SS, "import binascii\n", "import binascii\nimport logging\n")])
+T('C14', 'twin-boolean-asserted-and-warned', SS, BFLAG, "    def bflag_bytearray(self, val):\n        assert len(val) >= 1\n        octet = self.bytes_to_int(val)\n        if octet not in (0, 1):\n            warnings.warn('boolean subpacket octet is neither 0 nor 1')\n        self.bflag = bool(octet)",
+  more=[(SS, "import binascii\n", "import binascii\nimport warnings\n")])
+M('C14', 'boolean-logged-odd-octet-treated-false', SS, BFLAG, "    def bflag_bytearray(self, val):\n        octet = self.bytes_to_int(val)\n        if octet > 1:\n            self._log.debug('boolean octet 0x%02x is neither 0 nor 1; ignoring it', octet)\n            octet = 0\n        self.bflag = bool(octet)",
+  'C14.2', more=[(SS, "class Boolean(Signature):\n", "class Boolean(Signature):\n    _log = logging.getLogger('pgpy.packet.subpackets')\n\n"), (SS, "import binascii\n", "import binascii\nimport logging\n")])
+# CANON(DOC) on a path that decided "no LF in DOC" is DOC itself (held-out twin C02-ref13); nothing weaker than that guard
+_CAN = "            _data += re.subn(br'\\r?\\n', b'\\r\\n', subject)[0]\n"
+_FAST = "            if %s:\n                _data += subject\n\n            else:\n                _data += re.subn(br'\\r?\\n', b'\\r\\n', subject)[0]\n"
+for _p in ('C01', 'C02', 'C05', 'C11'):
+    T(_p, 'twin-canon-fast-path-no-lf', PGP, _CAN, _FAST % "isinstance(subject, (bytes, bytearray)) and b'\\n' not in subject")
+    T(_p, 'twin-canon-fast-path-lf-present-first', PGP, _CAN, "            if b'\\n' in subject:\n                _data += re.subn(br'\\r?\\n', b'\\r\\n', subject)[0]\n            else:\n                _data += subject\n")
+for _p, _r in (('C01', 'C01.1'), ('C02', 'C02.1'), ('C11', 'C11.4')):
+    M(_p, 'canon-fast-path-guard-cr-only', PGP, _CAN, _FAST % "isinstance(subject, (bytes, bytearray)) and b'\\r' not in subject", _r)
+    M(_p, 'canon-fast-path-guard-length', PGP, _CAN, _FAST % "len(subject) < 64", _r)
+    M(_p, 'canon-fast-path-guard-type-alone', PGP, _CAN, _FAST % "isinstance(subject, bytearray)", _r)
+    M(_p, 'canon-fast-path-guard-lf-in-prefix-only', PGP, _CAN, _FAST % "b'\\n' not in subject[:64]", _r)
+    M(_p, 'canon-fast-path-guard-inverted', PGP, _CAN, _FAST % "b'\\n' in subject", _r)
+    M(_p, 'canon-fast-path-guard-or-type', PGP, _CAN, _FAST % "isinstance(subject, bytearray) or b'\\n' not in subject", _r)
